@@ -293,6 +293,9 @@ struct Prog {
     nodes: Vec<Node>,
     tally: Tally,
     violated: bool,
+    /// the Scalar4 multiplications (x, y) the op about to be pushed consists of; used only to
+    /// classify an unflagged mismatch (was an intermediate accumulator an approx-flagged zero?)
+    pending_steps: Vec<(Scalar4, Scalar4)>,
 }
 
 impl Prog {
@@ -320,6 +323,7 @@ impl Prog {
 
     /// Judge a freshly computed node and append it.
     fn push(&mut self, real: Scalar4, mut model: R, op: Value, kind: &'static str, args: (usize, usize), operand_has_approx_zero: bool, irrational_const: bool) {
+        let steps = std::mem::take(&mut self.pending_steps);
         let raw = real.verif_raw();
         let flagged = raw.iter().any(|r| r.1);
         let stored = r_of_scalar(&real);
@@ -340,7 +344,11 @@ impl Prog {
         self.nodes.push(Node { real, raw, flagged, model: model.clone(), eb, op, kind, args });
         if raw.iter().any(|r| r.2 != 0 && r.2 >> 63 == 0) {
             // same root cause as in the Dyadic family (carry path of Dyadic::add), same signature
-            self.violation("Dyadic::add/sub|stored-mantissa-not-normalised", idx, json!({"operation": kind, "reached_through": "Scalar4"}));
+            if self.nodes[..idx].iter().any(|n| n.raw.iter().any(|r| r.2 != 0 && r.2 >> 63 == 0)) {
+                self.tally.add("cascade:not-normalised-mantissa-passed-on");
+            } else {
+                self.violation("Dyadic::add/sub|stored-mantissa-not-normalised", idx, json!({"operation": kind, "reached_through": "Scalar4"}));
+            }
         }
         if irrational_const && !flagged {
             self.violation(&format!("{kind}|irrational-constant-not-flagged"), idx, json!({"what": "a phase that is not a multiple of pi/4 has an irrational value; the stored float must be flagged approximate"}));
@@ -354,8 +362,14 @@ impl Prog {
             } else {
                 // one root cause = one signature: the op kind stays in the detail when the
                 // discriminating condition already identifies the cause
+                let inner_az = !operand_has_approx_zero && steps.iter().any(|(x, y)| mul_intermediate_approx_zero(&x.verif_raw(), &y.verif_raw()));
                 let sig = if operand_has_approx_zero {
                     "Scalar4-arithmetic|unflagged-result-differs-from-exact-value|operand-has-approx-flagged-zero-coefficient".to_string()
+                } else if inner_az {
+                    // same root cause (Dyadic::add returns the other operand when one is zero and
+                    // forgets the zero's approx flag), but the approx-flagged zero is an
+                    // intermediate accumulator inside Scalar4::mul, not visible in the operands
+                    "Scalar4-arithmetic|unflagged-result-differs-from-exact-value|approx-flagged-zero-accumulator-inside-mul".to_string()
                 } else {
                     format!("{kind}|unflagged-result-differs-from-exact-value|other")
                 };
@@ -580,6 +594,55 @@ fn phase_form(m: &R) -> Option<(i64, i64)> {
         }
     }
     None
+}
+
+/// Rebuild a Dyadic with exactly the given stored parts (classification aid only).
+fn dy_from_raw(r: &Raw) -> Option<Dyadic> {
+    let (s, a, m, e) = *r;
+    let mut d = if m == 0 {
+        Dyadic::zero()
+    } else if m & 1 == 0 {
+        Dyadic::new((m >> 1) as i64, e.checked_add(1)?)
+    } else {
+        Dyadic::new((m >> 1) as i64, e.checked_add(1)?) + Dyadic::new(1, e)
+    };
+    if s {
+        d = -d;
+    }
+    d.set_approx(a);
+    (d.verif_raw() == *r).then_some(d)
+}
+
+/// Re-enact the accumulation order of `Scalar4 * Scalar4` on the real Dyadic operations and
+/// report whether some accumulator passes through an approx-flagged zero. Used only to pick
+/// the discriminating condition of a signature, never for a verdict.
+fn mul_intermediate_approx_zero(x: &[Raw; 4], y: &[Raw; 4]) -> bool {
+    let (x, y) = (*x, *y);
+    guarded(move || {
+        let xs: Vec<Option<Dyadic>> = x.iter().map(dy_from_raw).collect();
+        let ys: Vec<Option<Dyadic>> = y.iter().map(dy_from_raw).collect();
+        if xs.iter().chain(ys.iter()).any(|d| d.is_none()) {
+            return false;
+        }
+        let xs: Vec<Dyadic> = xs.into_iter().map(|d| d.unwrap()).collect();
+        let ys: Vec<Dyadic> = ys.into_iter().map(|d| d.unwrap()).collect();
+        let mut acc = [Dyadic::zero(); 4];
+        for i in 0..4 {
+            if xs[i].is_zero() {
+                continue;
+            }
+            for j in 0..4 {
+                let pos = (i + j) % 8;
+                let (k, t) = if pos < 4 { (pos, xs[i] * ys[j]) } else { (pos - 4, -xs[i] * ys[j]) };
+                acc[k] = acc[k] + t;
+                if acc[k].is_zero() && acc[k].approx() {
+                    return true;
+                }
+            }
+        }
+        false
+    })
+    .unwrap_or(false)
 }
 
 fn has_approx_zero(raw: &[Raw; 4]) -> bool {
@@ -840,6 +903,7 @@ fn gen_op(r: &mut Rng, p: &mut Prog, base: ExpBase) {
                     }
                 });
                 let model = na.model.mul(&nb.model);
+                p.pending_steps = vec![(x, y)];
                 finish_op(p, real, model, json!({"mul": [a, b], "variant": variant}), "mul", (a, b), abz);
                 return;
             }
@@ -859,6 +923,11 @@ fn gen_op(r: &mut Rng, p: &mut Prog, base: ExpBase) {
                     _ => x * Scalar4::from_phase(1),
                 });
                 let name = ["neg(minus_one*x)", "neg(zero-x)", "neg(x*from_phase(1))"][which];
+                p.pending_steps = match which {
+                    0 => vec![(Scalar4::minus_one(), x)],
+                    1 => vec![],
+                    _ => vec![(x, Scalar4::from_phase(1))],
+                };
                 finish_op(p, real, na.model.neg(), json!({name: a}), "neg", (a, a), az);
                 return;
             }
@@ -877,6 +946,7 @@ fn gen_op(r: &mut Rng, p: &mut Prog, base: ExpBase) {
                     x.mul_sqrt2_pow(pw as i32);
                     x
                 });
+                p.pending_steps = vec![(na.real, Scalar4::sqrt2_pow(pw as i32))];
                 finish_op(p, real, na.model.mul(&R::sqrt2_pow(pw)), json!({"mul_sqrt2_pow": [a as i64, pw]}), "mul_sqrt2_pow", (a, a), az);
                 return;
             }
@@ -908,6 +978,7 @@ fn gen_op(r: &mut Rng, p: &mut Prog, base: ExpBase) {
                     x
                 });
                 let kind = if one_plus { "mul_one_plus_phase" } else { "mul_phase" };
+                p.pending_steps = vec![(na.real, cst)];
                 finish_op(p, real, na.model.mul(&cm), json!({kind: [a as i64, pn, pd]}), kind, (a, a), az || has_approx_zero(&cst.verif_raw()));
                 return;
             }
@@ -946,16 +1017,21 @@ fn gen_op(r: &mut Rng, p: &mut Prog, base: ExpBase) {
                     // classification only: replay the fold to see whether an intermediate
                     // accumulator carries an approx-flagged zero coefficient
                     let vs = vals.clone();
-                    if let Ok(true) = guarded(move || {
+                    if let Ok((seen, steps)) = guarded(move || {
                         let mut acc = if prod { Scalar4::one() } else { Scalar4::zero() };
                         let mut seen = false;
+                        let mut steps = vec![];
                         for v in vs {
+                            if prod {
+                                steps.push((acc, v));
+                            }
                             acc = if prod { acc * v } else { acc + v };
                             seen |= has_approx_zero(&acc.verif_raw());
                         }
-                        seen
+                        (seen, steps)
                     }) {
-                        any_az = true;
+                        any_az |= seen;
+                        p.pending_steps = steps;
                     }
                 }
                 let real = guarded(move || if prod { vals.into_iter().product::<Scalar4>() } else { vals.into_iter().sum::<Scalar4>() });
@@ -974,13 +1050,23 @@ fn gen_op(r: &mut Rng, p: &mut Prog, base: ExpBase) {
                     }
                     (0 | 1, "mul") => {
                         let (u, v) = (p.nodes[na.args.0].real, p.nodes[na.args.1].real);
+                        p.pending_steps = vec![(v, u)];
                         (guarded(|| v * u), "twin:commuted-mul")
                     }
-                    (2, _) => (guarded(|| x * Scalar4::one()), "twin:x*one"),
+                    (2, _) => {
+                        p.pending_steps = vec![(x, Scalar4::one())];
+                        (guarded(|| x * Scalar4::one()), "twin:x*one")
+                    }
                     (3, _) => (guarded(|| Scalar4::zero() + x), "twin:zero+x"),
                     (4, _) => (guarded(|| x.conj().conj()), "twin:conj-conj"),
                     (5, _) => {
                         let k = r.range(1, 7);
+                        if let Ok(st) = guarded(move || {
+                            let (c1, c2) = (Scalar4::from_phase((k, 4)), Scalar4::from_phase((8 - k, 4)));
+                            vec![(x, c1), (x * c1, c2)]
+                        }) {
+                            p.pending_steps = st;
+                        }
                         (
                             guarded(move || {
                                 let mut t = x;
@@ -993,6 +1079,12 @@ fn gen_op(r: &mut Rng, p: &mut Prog, base: ExpBase) {
                     }
                     _ => {
                         let pw = r.range(-9, 9) as i32;
+                        if let Ok(st) = guarded(move || {
+                            let (c1, c2) = (Scalar4::sqrt2_pow(pw), Scalar4::sqrt2_pow(-pw));
+                            vec![(x, c1), (x * c1, c2)]
+                        }) {
+                            p.pending_steps = st;
+                        }
                         (
                             guarded(move || {
                                 let mut t = x;
@@ -1045,7 +1137,7 @@ fn scalar_program(family: &'static str, index: u64, r: &mut Rng) {
     let base = gen_base(r);
     let len = 6 + r.below(19);
     let nconst = 2 + r.below(4);
-    let mut p = Prog { family, index, nodes: vec![], tally: Tally::default(), violated: false };
+    let mut p = Prog { family, index, nodes: vec![], tally: Tally::default(), violated: false, pending_steps: vec![] };
     for _ in 0..nconst {
         gen_const(r, &mut p, base);
     }
@@ -1117,9 +1209,14 @@ impl DProg {
         }
         self.nodes.push(DNode { real, raw, model: model.clone(), op });
         if raw.2 != 0 && raw.2 >> 63 == 0 {
-            // state invariant named by the property: "val normalised to have its top bit set"
-            let site = if kind == "add" || kind == "sub" { "add/sub" } else { kind };
-            self.violation(&format!("Dyadic::{site}|stored-mantissa-not-normalised"), idx, json!({"operation": kind, "raw": raw_json(&raw)}));
+            // state invariant named by the property: "val normalised to have its top bit set".
+            // Reported where it originates; neg/abs/... of such a value only pass it on.
+            if self.nodes[..idx].iter().any(|n| n.raw.2 != 0 && n.raw.2 >> 63 == 0) {
+                self.tally.add("cascade:not-normalised-mantissa-passed-on");
+            } else {
+                let site = if kind == "add" || kind == "sub" { "add/sub" } else { kind };
+                self.violation(&format!("Dyadic::{site}|stored-mantissa-not-normalised"), idx, json!({"operation": kind, "raw": raw_json(&raw)}));
+            }
         }
         if stored != model {
             if raw.1 {
@@ -1270,7 +1367,8 @@ fn check_order(p: &mut DProg, i: usize, j: usize) {
         Err(e) => p.violation(&format!("Dyadic::cmp|panic|{}", e.site()), i.max(j), json!({"panic": e.text()})),
         Ok((c1, c2, lt, gt, le, ge)) => {
             if c1 != want || c2 != Some(want) {
-                p.violation(&format!("Dyadic::cmp|wrong-order|{cond}|{pair}"), i.max(j), detail(json!(format!("{c1:?}"))));
+                let sig = if cond == "operand-mantissa-not-normalised" { format!("Dyadic::cmp|wrong-order|{cond}") } else { format!("Dyadic::cmp|wrong-order|{cond}|{pair}") };
+                p.violation(&sig, i.max(j), detail(json!(format!("{c1:?}"))));
             } else if lt != (want == Ordering::Less) || gt != (want == Ordering::Greater) || le != (want != Ordering::Greater) || ge != (want != Ordering::Less) {
                 p.violation(&format!("Dyadic::lt/gt|inconsistent-with-order|{cond}"), i.max(j), detail(json!({"lt": lt, "gt": gt, "le": le, "ge": ge})));
             }
@@ -1313,6 +1411,10 @@ fn check_abs_diff(p: &mut DProg, i: usize, j: usize, eps: Option<Dyadic>) {
         "difference>=4eps"
     };
     p.tally.add(&format!("absdiff:{class}{}", if eps.is_none() { ":default-eps" } else { "" }));
+    // an operand whose mantissa is not normalised (carry defect of Dyadic::add) derails the
+    // internal subtraction: same root cause, own signature
+    let denorm = |r: &Raw| r.2 != 0 && r.2 >> 63 == 0;
+    let class = if denorm(&a.raw) || denorm(&b.raw) { "operand-mantissa-not-normalised" } else { class };
     match guarded(|| a.real.abs_diff_eq(&b.real, e)) {
         Err(pn) => p.violation(&format!("Dyadic::abs_diff_eq|panic|{}", pn.site()), i.max(j), json!({"panic": pn.text()})),
         Ok(got) => {
@@ -1537,6 +1639,29 @@ fn directed(family: &'static str, index: u64, _r: &mut Rng) {
     if let Ok(d) = guarded(|| a.real + b.real) {
         p.push(d, a.model.add(&b.model), json!({"add": [6, 1]}), "add", false);
     }
+    // inexact cancellation to zero, then an exact addend: (2^70 + 1) - 2^70 + 1
+    {
+        let big = p.nodes[5].clone();
+        if let Ok(t) = guarded(|| big.real + b.real) {
+            p.push(t, big.model.add(&b.model), json!({"add": [5, 1]}), "add", false);
+            let ti = p.nodes.len() - 1;
+            let tm = p.nodes[ti].model.clone();
+            if let Ok(u) = guarded(|| t - big.real) {
+                p.push(u, tm.sub(&big.model), json!({"sub": [ti, 5]}), "sub", false);
+                let um = p.nodes[ti + 1].model.clone();
+                let az = u.verif_raw().2 == 0 && u.verif_raw().1;
+                if let Ok(v) = guarded(|| u + b.real) {
+                    p.push(v, um.add(&b.model), json!({"add": [ti + 1, 1]}), "add", az);
+                }
+            }
+        }
+    }
+    // (2^64-1) + 1 : carry out of a full mantissa
+    if let Some((at, full)) = p.nodes.iter().cloned().enumerate().find(|(_, n)| n.raw.2 == u64::MAX) {
+        if let Ok(d) = guarded(|| full.real + b.real) {
+            p.push(d, full.model.add(&b.model), json!({"add": [at, 1]}), "add", false);
+        }
+    }
     let n = p.nodes.len();
     for i in 0..n {
         for j in 0..n {
@@ -1549,11 +1674,34 @@ fn directed(family: &'static str, index: u64, _r: &mut Rng) {
     check_abs_diff(&mut p, 1, 2, None);
     p.tally.flush();
     // Scalar4: the exact scalar 2^64-1 and friends through the recognisers and the conversion
-    let mut q = Prog { family, index, nodes: vec![], tally: Tally::default(), violated: false };
+    let mut q = Prog { family, index, nodes: vec![], tally: Tally::default(), violated: false, pending_steps: vec![] };
     q.push(Scalar4::new([i64::MAX, 0, 0, 0], 1), R::from_i64s([i64::MAX, 0, 0, 0], 1), json!({"Scalar4::new": [[i64::MAX, 0, 0, 0], 1]}), "Scalar4::new", (usize::MAX, usize::MAX), false, false);
     q.push(Scalar4::one(), R::one(), json!("one()"), "one", (usize::MAX, usize::MAX), false, false);
     let (x, y) = (q.nodes[0].clone(), q.nodes[1].clone());
     finish_op(&mut q, guarded(|| x.real + y.real), x.model.add(&y.model), json!({"add": [0, 1]}), "add", (0, 1), false);
+    // inexact cancellation to zero, then an exact addend: (2^70 + 1) - 2^70 + 1
+    {
+        let at = q.nodes.len();
+        q.push(Scalar4::new([1, 0, 0, 0], 70), R::pow2(70), json!({"Scalar4::new": [[1, 0, 0, 0], 70]}), "Scalar4::new", (usize::MAX, usize::MAX), false, false);
+        let (big, one) = (q.nodes[at].clone(), q.nodes[1].clone());
+        finish_op(&mut q, guarded(|| big.real + one.real), big.model.add(&one.model), json!({"add": [at, 1]}), "add", (at, 1), false);
+        if let Some(t) = q.nodes.last().cloned() {
+            finish_op(&mut q, guarded(|| t.real - big.real), t.model.sub(&big.model), json!({"sub": [at + 1, at]}), "sub", (at + 1, at), false);
+        }
+        if let Some(u) = q.nodes.last().cloned() {
+            let az = has_approx_zero(&u.raw);
+            finish_op(&mut q, guarded(|| u.real + one.real), u.model.add(&one.model), json!({"add": [at + 2, 1]}), "add", (at + 2, 1), az);
+        }
+    }
+    // flag lost on an accumulator inside Scalar4::mul: x = 1 + 3*2^40 (-w - w^2 + w^3), x*x
+    {
+        let at = q.nodes.len();
+        let co = [1i64, -(3 << 40), -(3 << 40), 3 << 40];
+        q.push(Scalar4::new(co, 0), R::from_i64s(co, 0), json!({"Scalar4::new": [co, 0]}), "Scalar4::new", (usize::MAX, usize::MAX), false, false);
+        let x = q.nodes[at].clone();
+        q.pending_steps = vec![(x.real, x.real)];
+        finish_op(&mut q, guarded(|| x.real * x.real), x.model.mul(&x.model), json!({"mul": [at, at]}), "mul", (at, at), false);
+    }
     for k in 0..8 {
         for pw in [-3i64, -1, 0, 1, 2, 5] {
             let m = R::omega_pow(k).mul(&R::sqrt2_pow(pw));
@@ -1588,7 +1736,7 @@ pub fn run() {
     c.assume("conversion Err is judged only when every non-zero coefficient lies in [2^-800, 2^900]; conversions of values above 2^1000 are not judged");
     let t = c.tier;
     par_cases("directed-edges", 1, |r, i| directed("directed-edges", i, r));
-    let (ns, nd) = t.pick((50_000usize, 50_000usize), (1_500_000usize, 1_500_000usize));
+    let (ns, nd) = t.pick((150_000usize, 150_000usize), (1_500_000usize, 1_500_000usize));
     par_cases("scalar4-programs", ns, |r, i| scalar_program("scalar4-programs", i, r));
     par_cases("dyadic-programs", nd, |r, i| dyadic_program("dyadic-programs", i, r));
     c.extra("exhaustive", json!(false));
